@@ -797,3 +797,21 @@ func (g *Gen) Observe(o Op, res string) {
 		g.usedBets = append(g.usedBets, o.BetUID)
 	}
 }
+
+// boundaryTime sometimes moves the next block time onto a deadline of the state (ovm profile: the 30 minute
+// window of an active proposal, to the second and within the following minute); never moves time backwards.
+func (g *Gen) boundaryTime(t int64) int64 {
+	if g.profile != "ovm" || g.c.Height == 0 || !g.chance(0.2) {
+		return t
+	}
+	props, _ := g.c.App.OVMKeeper.GetAllPubkeysChangeProposalsByStatus(committedCtx(g.c), 1)
+	if len(props) == 0 {
+		return t
+	}
+	p := pick(g.r, props)
+	nt := p.StartTS + 1800 + pick(g.r, []int64{-1, 0, 1, 2, 30, 59, 60, 61})
+	if nt > g.c.Time {
+		return nt
+	}
+	return t
+}
